@@ -423,7 +423,7 @@ func checkC09(r *Run) {
 						}
 					}
 					// non-nil edge: must go on to redial
-					r3 := ReachableViaEdge(f, ifEdge{e.B, 1-e.K}, PathQ{})
+					r3 := ReachableViaEdge(f, ifEdge{e.B, 1 - e.K}, PathQ{})
 					redial2 := false
 					for x := range r3 {
 						if isDial(x) {
